@@ -34,8 +34,9 @@ func C15(c *Ctx) {
 	r.Explanation = "(A7 coverage agreement) per module: every store section written at run time (handlers, ante, begin/end block) is also written by genesis import, and is read by genesis export or is a derived section that import rebuilds under the stated guard (the enterprise raised/accepted queues from the order status); " +
 		"(literal completeness) every keyed struct literal of a module type built on an import/export route names every field of that type, and each imported record field comes from the like-named genesis field; exported in-state counters are recomputed from the exported records (len, first element); " +
 		"(A5) the export caps of both record modules are the constant 20000 and are what the reverse iteration stops at; (A8) import drops no error of a state setter (incl. SetParams); (A2) import asserts escrow balance == holdings for the enterprise and stream accounts; (A5) the four modules are in the init/export genesis order and implement InitGenesis/ExportGenesis. Byte-identical round trip and behavioural equivalence are not decided."
-	r.Rules = []string{"A7.section-coverage", "A7.derived-queues", "A7.literal-completeness", "A7.import-fields", "A7.export-counters", "A7.export-fields", "A5.export-cap", "A8.import-errors", "A2.genesis-balance", "A5.genesis-order", "A12.decode-fresh"}
+	r.Rules = []string{"A7.section-coverage", "A7.derived-queues", "A7.literal-completeness", "A7.import-fields", "A7.export-counters", "A7.export-fields", "A5.export-cap", "A8.import-errors", "A2.genesis-balance", "A5.genesis-order", "A12.decode-fresh", "A7.export-complete"}
 	decodeFresh(c, ir.Modules...)
+	exportComplete(c, ir.Modules...)
 	r.Trusted = []string{"module manager runs InitGenesis/ExportGenesis in the configured order", "protobuf JSON round trip of the genesis document"}
 	r.NotDecided = []string{"byte-identical re-export", "behavioural equivalence of the imported chain", "registered invariants holding after import (numeric)"}
 
@@ -329,7 +330,7 @@ func importErrors(c *Ctx, m string) {
 			}
 		}
 	}
-	fl := map[string]int{"enterprise": 6, "wrkchain": 4, "beacon": 4, "stream": 2}
+	fl := map[string]int{"enterprise": 6, "wrkchain": 4, "beacon": 4, "stream": 1}
 	r.Floor("fallible state setters called by genesis import of "+m, n, fl[m])
 }
 
@@ -384,15 +385,53 @@ func exportCaps(c *Ctx) {
 			for _, b := range f.Blocks {
 				for _, in := range b.Instrs {
 					bo, ok := in.(*ssa.BinOp)
-					if !ok || (bo.Op != token.EQL && bo.Op != token.GEQ) {
+					if !ok {
 						continue
 					}
-					for _, o := range []ssa.Value{bo.X, bo.Y} {
+					for oi, o := range []ssa.Value{bo.X, bo.Y} {
+						// count == cap / count >= cap stop the walk, count < cap / count != cap let it go on: all end it after exactly
+						// cap records (count <= cap or count > cap would take one more); with the cap on the left the order is mirrored
+						op := bo.Op
+						if oi == 0 {
+							switch op {
+							case token.LSS:
+								op = token.GTR
+							case token.GTR:
+								op = token.LSS
+							case token.LEQ:
+								op = token.GEQ
+							case token.GEQ:
+								op = token.LEQ
+							}
+						}
+						if op != token.EQL && op != token.GEQ && op != token.LSS && op != token.NEQ {
+							continue
+						}
 						if isCap(o) {
 							cmpWithCap = true
 						}
 						if u, ok := o.(*ssa.UnOp); ok && u.Op == token.MUL {
 							if fa, ok := u.X.(*ssa.FieldAddr); ok && capFields[ptrElem(fa.X.Type()).String()+"."+ir.FieldName(fa.X.Type(), fa.Field)] {
+								cmpWithCap = true
+							}
+						}
+						// ... or as a parameter every caller gives the constant (`floor(ctx, id, keep uint64)` called with Max)
+						if pr, ok := o.(*ssa.Parameter); ok {
+							idx := -1
+							for i, q := range f.Params {
+								if q == pr {
+									idx = i
+								}
+							}
+							callers := w.Callers(f)
+							all := idx >= 0 && len(callers) > 0
+							for _, ed := range callers {
+								cs, ok := ed.Site.(ssa.CallInstruction)
+								if !ok || cs.Common().IsInvoke() || idx >= len(cs.Common().Args) || !isCap(stripConvV(cs.Common().Args[idx])) {
+									all = false
+								}
+							}
+							if all {
 								cmpWithCap = true
 							}
 						}
@@ -701,6 +740,10 @@ func exportSections(c *Ctx) {
 							}
 						}
 						ok2 = secs[sec] && len(secs) == 1
+					} else if secs, ok := collectorFieldSections(c, st.Val); ok {
+						// a field of a collector record filled through its methods, handed as callbacks to the keeper's iterate helpers
+						delete(secs, secEntParams)
+						ok2 = secs[sec] && len(secs) == 1
 					}
 					r.Require(ok2, "A7.export-fields", "enterprise|GenesisState."+fname, pos(c, in), "exported "+fname+" is read from section "+sec+" only", fname+" = "+v.String())
 				}
@@ -856,5 +899,136 @@ func exportGenesisArgs(c *Ctx, rule string, onlyStartID bool) {
 			fl = map[string]int{"wrkchain": 1, "beacon": 1, "stream": 0}
 		}
 		r.Floor("exported genesis state fields checked on the "+m+" export route", n, fl[m])
+	}
+}
+
+// collectorFieldSections: v is field F of a local record whose methods were handed on as bound method values
+// (`ledger := &ledgerExport{}; k.IterateLockedUnds(ctx, ledger.addLocked); ... ledger.locked`): the store sections read by
+// the functions that were given a method writing F (and by those methods). ok=false when v has another shape or the
+// record's field is written in a way that is not followed.
+func collectorFieldSections(c *Ctx, v ssa.Value) (map[string]bool, bool) {
+	w := c.W
+	for {
+		if ct, isCT := v.(*ssa.ChangeType); isCT {
+			v = ct.X
+			continue
+		}
+		break
+	}
+	ld, ok := v.(*ssa.UnOp)
+	if !ok || ld.Op != token.MUL {
+		if os.Getenv("MCDEBUG") == "coll" {
+			fmt.Fprintf(os.Stderr, "collector v=%T %v\n", v, v)
+		}
+		return dbgFail(1)
+	}
+	fa, ok := ld.X.(*ssa.FieldAddr)
+	if !ok {
+		return dbgFail(2)
+	}
+	al, ok := fa.X.(*ssa.Alloc)
+	if !ok || al.Referrers() == nil {
+		return dbgFail(3)
+	}
+	secs := map[string]bool{}
+	fillers := 0
+	addReads := func(g *ssa.Function) {
+		for h := range w.Reachable([]*ssa.Function{g}) {
+			for _, e := range w.EffectsOf(h) {
+				if e.Kind == "StoreRead" || e.Kind == "StoreIter" {
+					secs[e.Section] = true
+				}
+			}
+		}
+	}
+	for _, r := range *al.Referrers() {
+		switch x := r.(type) {
+		case *ssa.MakeClosure:
+			wrapper, _ := x.Fn.(*ssa.Function)
+			if wrapper == nil || len(x.Bindings) != 1 || x.Bindings[0] != ssa.Value(al) {
+				return dbgFail(4)
+			}
+			// the method behind the bound-method wrapper
+			var method *ssa.Function
+			for _, b := range wrapper.Blocks {
+				for _, in := range b.Instrs {
+					if call, ok := in.(ssa.CallInstruction); ok {
+						if sc := call.Common().StaticCallee(); sc != nil {
+							method = sc
+						}
+					}
+				}
+			}
+			if method == nil || len(method.Params) == 0 {
+				return dbgFail(5)
+			}
+			writes := false
+			if refs := method.Params[0].Referrers(); refs != nil {
+				for _, u := range *refs {
+					if mfa, ok := u.(*ssa.FieldAddr); ok && mfa.Field == fa.Field && mfa.Referrers() != nil {
+						for _, uu := range *mfa.Referrers() {
+							if st, ok := uu.(*ssa.Store); ok && st.Addr == ssa.Value(mfa) {
+								writes = true
+							}
+						}
+					}
+				}
+			}
+			if !writes {
+				continue
+			}
+			if x.Referrers() == nil {
+				return dbgFail(6)
+			}
+			for _, u := range *x.Referrers() {
+				call, ok := u.(ssa.CallInstruction)
+				if !ok {
+					if _, dbg := u.(*ssa.DebugRef); dbg {
+						continue
+					}
+					return dbgFail(7)
+				}
+				gs := w.CalleesOf(call)
+				if len(gs) == 0 {
+					return dbgFail(8)
+				}
+				for _, g := range gs {
+					addReads(g)
+				}
+				addReads(method)
+				fillers++
+			}
+		case *ssa.FieldAddr:
+			if x.Field != fa.Field || x.Referrers() == nil {
+				continue
+			}
+			for _, u := range *x.Referrers() {
+				if st, ok := u.(*ssa.Store); ok && st.Addr == ssa.Value(x) {
+					return dbgFail(9) // assigned directly as well: not judged here
+				}
+			}
+		}
+	}
+	return secs, fillers > 0
+}
+
+func dbgFail(i int) (map[string]bool, bool) {
+	if os.Getenv("MCDEBUG") == "coll" {
+		fmt.Fprintln(os.Stderr, "collector fail", i)
+	}
+	return nil, false
+}
+
+// stripConvV strips numeric conversions of an SSA value.
+func stripConvV(v ssa.Value) ssa.Value {
+	for {
+		switch x := v.(type) {
+		case *ssa.Convert:
+			v = x.X
+		case *ssa.ChangeType:
+			v = x.X
+		default:
+			return v
+		}
 	}
 }
